@@ -132,8 +132,12 @@ def write_driver_crate(dirpath, grammars):
 
 def compile_and_run(dirpath, timeout=120):
     """Returns (compile_ok, stderr, output_lines or None, timed_out)."""
-    r = subprocess.run(["rustc", "--edition", "2021", "-A", "warnings", "-C", "debuginfo=0", "-C", "opt-level=0",
-                        "main.rs", "-o", "main"], cwd=dirpath, capture_output=True, text=True, timeout=600)
+    try:
+        r = subprocess.run(["rustc", "--edition", "2021", "-A", "warnings", "-C", "debuginfo=0", "-C", "opt-level=0",
+                            "main.rs", "-o", "main"], cwd=dirpath, capture_output=True, text=True, timeout=1500)
+    except subprocess.TimeoutExpired:
+        # the compiler did not finish (machine under load, very large module): nothing observed, not a verdict
+        return True, "rustc-timeout", [], True
     if r.returncode != 0:
         return False, r.stderr, None, False
     try:
@@ -150,7 +154,17 @@ def run_compiled(workdir, grammars, batch=12, jobs=16):
     and list of batch indices that timed out."""
     shutil.rmtree(workdir, ignore_errors=True)
     os.makedirs(workdir)
-    batches = [list(range(i, min(i + batch, len(grammars)))) for i in range(0, len(grammars), batch)]
+    # batches of at most `batch` grammars and at most ~500 kB of emitted text (a very large module compiles alone)
+    batches, cur, cur_bytes = [], [], 0
+    for i, g in enumerate(grammars):
+        n = len(g[0])
+        if cur and (len(cur) >= batch or cur_bytes + n > 500_000):
+            batches.append(cur)
+            cur, cur_bytes = [], 0
+        cur.append(i)
+        cur_bytes += n
+    if cur:
+        batches.append(cur)
     results, failures, timeouts = {}, [], []
 
     def job(bi):
@@ -164,6 +178,12 @@ def run_compiled(workdir, grammars, batch=12, jobs=16):
         for bi, idxs, ok, err, out, to in ex.map(job, range(len(batches))):
             if not ok:
                 failures.append((idxs, err))
+                continue
+            if to and err == "rustc-timeout":
+                # not observed (the compiler did not finish): neither a verdict nor a missing answer
+                for gi in idxs:
+                    for si in range(len(grammars[gi][3])):
+                        results[(gi, si)] = "rustc-timeout"
                 continue
             if to:
                 timeouts.append(idxs)
